@@ -67,6 +67,7 @@ func (eng *Engine) VerifyFunction(fn *ssa.Function, con *Contract) (u *Unit) {
 	x.entry = entry
 	fr.entrySt = entry
 	x.frame = x.computeFrame(con, vars, entry, fn.Pkg.Pkg)
+	x.topCon, x.topVars, x.topPkg, x.topName = con, vars, fn.Pkg.Pkg, name
 	env := &Env{x: x, u: u, vars: vars, bound: map[string]Val{}, st: st, old: entry, pkg: fn.Pkg.Pkg}
 	for _, ln := range con.Uses {
 		if err := u.useLemma(ln, fn.Pkg.Pkg); err != nil {
@@ -107,7 +108,7 @@ func (eng *Engine) VerifyFunction(fn *ssa.Function, con *Contract) (u *Unit) {
 		if len(ex.results) == 1 {
 			rv["result"] = ex.results[0]
 		}
-		env := &Env{x: x, u: u, vars: rv, bound: map[string]Val{}, st: ex.st, old: entry, pkg: fn.Pkg.Pkg}
+		env := &Env{x: x, u: u, vars: rv, bound: map[string]Val{}, st: ex.st, old: entry, pkg: fn.Pkg.Pkg, localsAfter: x.localsLookup(fr, ex.st)}
 		suffix := ""
 		if len(fr.exits) > 1 {
 			suffix = fmt.Sprintf("@ret%d", ei+1)
@@ -393,7 +394,18 @@ func (x *Executor) loopEnv(fr *Frame, li *loopInfo, st *State) *Env {
 			vars["iter"] = Val{T: fmt.Sprintf("(+ %s 1)", v.T), Ty: mathInt}
 		}
 	}
-	locals := func(name string) (Val, bool) {
+	locals := x.localsLookup(fr, st)
+	env := &Env{x: x, u: u, vars: vars, bound: map[string]Val{}, st: st, old: fr.entrySt, pkg: fr.fn.Pkg.Pkg, locals: locals}
+	if env.old == nil {
+		env.old = x.entry
+	}
+	return env
+}
+
+// localsLookup: resolve a source-level local variable name of frame fr in state st.
+func (x *Executor) localsLookup(fr *Frame, st *State) func(name string) (Val, bool) {
+	u := x.u
+	return func(name string) (Val, bool) {
 		var found *Val
 		n := 0
 		var keys []localKey
@@ -424,15 +436,20 @@ func (x *Executor) loopEnv(fr *Frame, li *loopInfo, st *State) *Env {
 					}
 				}
 			}
+			// declared somewhere in the function but not (yet) live here: an arbitrary value
+			for _, b := range fr.fn.Blocks {
+				for _, in := range b.Instrs {
+					if a, ok := in.(*ssa.Alloc); ok && a.Comment == name {
+						et := a.Type().(*types.Pointer).Elem()
+						n := u.freshConst("notlive$"+name, u.sortOf(et))
+						return Val{T: n, Ty: et}, true
+					}
+				}
+			}
 			return Val{}, false
 		}
 		return *found, true
 	}
-	env := &Env{x: x, u: u, vars: vars, bound: map[string]Val{}, st: st, old: fr.entrySt, pkg: fr.fn.Pkg.Pkg, locals: locals}
-	if env.old == nil {
-		env.old = x.entry
-	}
-	return env
 }
 
 func rangeIndexAlloc(li *loopInfo) *ssa.Alloc {
